@@ -3,7 +3,9 @@
          model proof of key against the tree after batch <at> (0-based):
          "proof <inc> <pk> <pv> <height> <bitmap> <ap,..> <apc,..>"   ('-' = empty)
      V kind root key value pk length bitmap ap,..
-         model verifier verdict "1"/"0"; kind = I | N | IC | NC *)
+         model verifier verdict "1"/"0"; kind = I | N | IC | NC
+     VS ..  the same with SHA-256 as the hash function (proofs produced by the node itself)
+     S hex  prints SHA-256 of the bytes (test vector) *)
 open Trie_model
 
 let rec pos_of_int i = if i = 1 then XH else if i land 1 = 1 then XI (pos_of_int (i lsr 1)) else XO (pos_of_int (i lsr 1))
@@ -31,6 +33,66 @@ let rec bits_to_hex = function
 let ap_of_field s = List.map (fun x -> if x = "." then [] else bytes_of_hex x) (split_commas s)
 let ap_to_field l = join_commas (List.map (fun x -> if x = [] then "." else hex_of_bytes x) l)
 
+(* SHA-256 (FIPS 180-4) on byte lists, for proofs produced by the node itself (the chain level
+   cannot run with the toy hash).  32-bit words in OCaml's 63-bit ints, masked. *)
+let sha_k = [|
+  0x428a2f98; 0x71374491; 0xb5c0fbcf; 0xe9b5dba5; 0x3956c25b; 0x59f111f1; 0x923f82a4; 0xab1c5ed5;
+  0xd807aa98; 0x12835b01; 0x243185be; 0x550c7dc3; 0x72be5d74; 0x80deb1fe; 0x9bdc06a7; 0xc19bf174;
+  0xe49b69c1; 0xefbe4786; 0x0fc19dc6; 0x240ca1cc; 0x2de92c6f; 0x4a7484aa; 0x5cb0a9dc; 0x76f988da;
+  0x983e5152; 0xa831c66d; 0xb00327c8; 0xbf597fc7; 0xc6e00bf3; 0xd5a79147; 0x06ca6351; 0x14292967;
+  0x27b70a85; 0x2e1b2138; 0x4d2c6dfc; 0x53380d13; 0x650a7354; 0x766a0abb; 0x81c2c92e; 0x92722c85;
+  0xa2bfe8a1; 0xa81a664b; 0xc24b8b70; 0xc76c51a3; 0xd192e819; 0xd6990624; 0xf40e3585; 0x106aa070;
+  0x19a4c116; 0x1e376c08; 0x2748774c; 0x34b0bcb5; 0x391c0cb3; 0x4ed8aa4a; 0x5b9cca4f; 0x682e6ff3;
+  0x748f82ee; 0x78a5636f; 0x84c87814; 0x8cc70208; 0x90befffa; 0xa4506ceb; 0xbef9a3f7; 0xc67178f2 |]
+let m32 = 0xffffffff
+let rotr x n = ((x lsr n) lor (x lsl (32 - n))) land m32
+let sha256_ints (data : int list) : int list =
+  let n = List.length data in
+  let padlen = let r = (n + 9) mod 64 in if r = 0 then 0 else 64 - r in
+  let bitlen = n * 8 in
+  let msg = Array.of_list (data @ [0x80] @ List.init padlen (fun _ -> 0)
+                           @ List.init 8 (fun i -> (bitlen lsr (8 * (7 - i))) land 255)) in
+  let h = [| 0x6a09e667; 0xbb67ae85; 0x3c6ef372; 0xa54ff53a; 0x510e527f; 0x9b05688c; 0x1f83d9ab; 0x5be0cd19 |] in
+  let w = Array.make 64 0 in
+  for blk = 0 to Array.length msg / 64 - 1 do
+    for t = 0 to 15 do
+      let o = blk * 64 + 4 * t in
+      w.(t) <- (msg.(o) lsl 24) lor (msg.(o + 1) lsl 16) lor (msg.(o + 2) lsl 8) lor msg.(o + 3)
+    done;
+    for t = 16 to 63 do
+      let s0 = rotr w.(t - 15) 7 lxor rotr w.(t - 15) 18 lxor (w.(t - 15) lsr 3) in
+      let s1 = rotr w.(t - 2) 17 lxor rotr w.(t - 2) 19 lxor (w.(t - 2) lsr 10) in
+      w.(t) <- (w.(t - 16) + s0 + w.(t - 7) + s1) land m32
+    done;
+    let a = ref h.(0) and b = ref h.(1) and c = ref h.(2) and d = ref h.(3)
+    and e = ref h.(4) and f = ref h.(5) and g = ref h.(6) and hh = ref h.(7) in
+    for t = 0 to 63 do
+      let s1 = rotr !e 6 lxor rotr !e 11 lxor rotr !e 25 in
+      let ch = (!e land !f) lxor ((lnot !e) land m32 land !g) in
+      let t1 = (!hh + s1 + ch + sha_k.(t) + w.(t)) land m32 in
+      let s0 = rotr !a 2 lxor rotr !a 13 lxor rotr !a 22 in
+      let maj = (!a land !b) lxor (!a land !c) lxor (!b land !c) in
+      let t2 = (s0 + maj) land m32 in
+      hh := !g; g := !f; f := !e; e := (!d + t1) land m32; d := !c; c := !b; b := !a; a := (t1 + t2) land m32
+    done;
+    h.(0) <- (h.(0) + !a) land m32; h.(1) <- (h.(1) + !b) land m32; h.(2) <- (h.(2) + !c) land m32; h.(3) <- (h.(3) + !d) land m32;
+    h.(4) <- (h.(4) + !e) land m32; h.(5) <- (h.(5) + !f) land m32; h.(6) <- (h.(6) + !g) land m32; h.(7) <- (h.(7) + !hh) land m32
+  done;
+  List.concat (List.map (fun x -> [(x lsr 24) land 255; (x lsr 16) land 255; (x lsr 8) land 255; x land 255]) (Array.to_list h))
+let sha256 (data : n list) : n list = List.map n_of_int (sha256_ints (List.map int_of_n data))
+
+let verdict hashf kind root key value pk length bitmap ap =
+  let root = bytes_of_hex root and key = bytes_of_hex key and value = bytes_of_hex value
+  and pk = bytes_of_hex pk and ap = ap_of_field ap in
+  let bm = bytes_to_bits (bytes_of_hex bitmap) in
+  let len = nat_of_int (max 0 (int_of_string length)) in
+  match kind with
+  | "I" -> verify_inclusion hashf root ap key value
+  | "N" -> verify_non_inclusion hashf root ap key value pk
+  | "IC" -> verify_inclusion_c hashf root bm key value ap len
+  | "NC" -> verify_non_inclusion_c hashf root ap len bm key value pk
+  | _ -> false
+
 let handle toy h hist (rest : string list) =
   match rest with
   | ["P"; at; key] ->
@@ -40,16 +102,9 @@ let handle toy h hist (rest : string list) =
       Printf.printf "proof %d %s %s %d %s %s %s\n" (if inc then 1 else 0) (hex_of_bytes pk) (hex_of_bytes pv)
         (int_of_nat height) (let s = bits_to_hex bm in if s = "" then "-" else s) (ap_to_field mp) (ap_to_field apc)
   | ["V"; kind; root; key; value; pk; length; bitmap; ap] ->
-      let root = bytes_of_hex root and key = bytes_of_hex key and value = bytes_of_hex value
-      and pk = bytes_of_hex pk and ap = ap_of_field ap in
-      let bm = bytes_to_bits (bytes_of_hex bitmap) in
-      let len = nat_of_int (max 0 (int_of_string length)) in
-      let ok = match kind with
-        | "I" -> verify_inclusion toy root ap key value
-        | "N" -> verify_non_inclusion toy root ap key value pk
-        | "IC" -> verify_inclusion_c toy root bm key value ap len
-        | "NC" -> verify_non_inclusion_c toy root ap len bm key value pk
-        | _ -> false in
-      print_endline (if ok then "1" else "0")
+      print_endline (if verdict toy kind root key value pk length bitmap ap then "1" else "0")
+  | ["VS"; kind; root; key; value; pk; length; bitmap; ap] ->      (* same with SHA-256 *)
+      print_endline (if verdict sha256 kind root key value pk length bitmap ap then "1" else "0")
+  | ["S"; hx] -> print_endline (hex_of_bytes (sha256 (bytes_of_hex hx)))
   | [] -> ()
   | x :: _ -> Printf.printf "unknown record %s\n" x
